@@ -97,6 +97,9 @@ def confirm(pid, n, h, scratch, tdir, logdir, tag="native"):
 
 def run_replay(pid, path):
     d = json.load(open(path))
+    if d.get("engine") == "M":
+        from . import mv
+        return mv.run_replay(pid, d)
     if d.get("engine") == "T":
         from . import tv
         return tv.run_replay(pid, d)
